@@ -111,16 +111,16 @@ def fitsI32 (v : Array Int) : Bool := v.all (fun x => -2147483648 ≤ x && x ≤
 
 /-- Does the harness make this call at all? (preconditions written as `debug_assert!` in fft.rs, i32 inputs) -/
 def POp.valid : POp → Bool
-  | .u n => n ≠ 0
+  | .u n => n ≠ 0 && n ≤ 16777216
   | .m a b => fitsI32 a && fitsI32 b
   | .mi a b _ => fitsI32 a && fitsI32 b
-  | .f v n => fitsI32 v && v.size ≤ fftSize v.size n
-  | .fi v n rx ry => fitsI32 v && fitsI32 rx && fitsI32 ry && rx.size == ry.size && v.size ≤ fftSize v.size n
+  | .f v n => fitsI32 v && v.size ≤ fftSize v.size n && n ≤ 16777216
+  | .fi v n rx ry => fitsI32 v && fitsI32 rx && fitsI32 ry && rx.size == ry.size && v.size ≤ fftSize v.size n && n ≤ 16777216
   | .inv xs ys => fitsI32 xs && fitsI32 ys && xs.size == ys.size && isPow2 xs.size
   | .ii xs ys _ => fitsI32 xs && fitsI32 ys && xs.size == ys.size && isPow2 xs.size
-  | .fm a b n => fitsI32 a && fitsI32 b && isPow2 n && a.size ≤ n && b.size ≤ n
-  | .fmx a b n => fitsI32 a && fitsI32 b && isPow2 n && a.size ≤ n && b.size ≤ n
-  | .fmi a b n _ => fitsI32 a && fitsI32 b && isPow2 n && a.size ≤ n && b.size ≤ n
+  | .fm a b n => fitsI32 a && fitsI32 b && isPow2 n && n ≤ 16777216 && a.size ≤ n && b.size ≤ n
+  | .fmx a b n => fitsI32 a && fitsI32 b && isPow2 n && n ≤ 16777216 && a.size ≤ n && b.size ≤ n
+  | .fmi a b n _ => fitsI32 a && fitsI32 b && isPow2 n && n ≤ 16777216 && a.size ≤ n && b.size ≤ n
 
 /-- The model-level call a protocol op denotes. -/
 def POp.toOp {K} (P : Prec K) : POp → Op K
@@ -178,30 +178,58 @@ def expected (op : POp) : Option (List Int) :=
 
 def padTo (xs : List Int) (n : Nat) : List Int := xs ++ List.replicate (n - xs.length) 0
 
-/-- What the specification says about the last call: `none` = not constrained (`any`). -/
-def specOf {K} (P : Prec K) (exp : Option (List Int)) : POp → Option String
+/-- Operands of the calls whose VALUE the property fixes (multiply, multiply_into, forward·pointwise·inverse). -/
+def POp.operands? : POp → Option (Array Int × Array Int × List Int)
+  | .m a b => some (a, b, [])
+  | .mi a b res => some (a, b, res)
+  | .fm a b _ | .fmx a b _ => some (a, b, [])
+  | .fmi a b _ res => some (a, b, res)
+  | _ => none
+
+/-- Is the value of this call fixed by the property?  (a value call inside the literal envelope
+    `max²·min(len) ≤ bound`; the composites need non-empty operands: `fft(&[], n)` is legal but not a product) -/
+def valueInDomain {K} (P : Prec K) (op : POp) : Bool :=
+  match op, op.operands? with
+  | .m _ _, some (a, b, _) => inEnvelope P a b
+  | .mi _ _ _, some (a, b, res) => inEnvelope P a b && smallRes res
+  | _, some (a, b, res) => a.size ≠ 0 && b.size ≠ 0 && inEnvelope P a b && smallRes res
+  | _, none => false
+
+/-- What the specification says about the last call: `none` = not constrained (`any`).  A value call outside
+    the envelope is still constrained by history independence (`fresh=same`, Level A holds for every input). -/
+def specOf (exp : Option (List Int)) (inDom : Bool) : POp → Option String
   | .u n => if isPow2 n then some "ok" else none
-  | .m a b => if inEnvelope P a b then exp.map (fun e => s!"{showIVec e} fresh=same oracle=exact") else none
-  | .mi a b res =>
-    if inEnvelope P a b && smallRes res then exp.map (fun e => s!"{showIVec e} fresh=same oracle=exact") else none
   | .f v n => let n := fftSize v.size n; if isPow2 n then some s!"len={n} fresh=same" else none
   | .fi v n rx _ => let n := fftSize v.size n; if isPow2 n then some s!"len={rx.size} fresh=same tail=kept" else none
   | .inv _ _ => some "fresh=same"
   | .ii _ _ _ => some "fresh=same tail=kept"
-  | .fm a b _ | .fmx a b _ =>
-    if a.size = 0 ∨ b.size = 0 then none
-    else if inEnvelope P a b then exp.map (fun e => s!"{showIVec e} fresh=same oracle=exact") else none
-  | .fmi a b _ res =>
-    if a.size = 0 ∨ b.size = 0 then none
-    else if inEnvelope P a b && smallRes res then exp.map (fun e => s!"{showIVec e} fresh=same oracle=exact") else none
+  | _ => if inDom then exp.map (fun e => s!"{showIVec e} fresh=same oracle=exact") else some "fresh=same"
+
+def outLen {K} : POut K → Nat
+  | .ivec xs => xs.length
+  | .cvec xs => xs.size
+  | _ => 0
+
+/-- The raw column.  Only values the property fixes are compared as values (rounded i64 vectors of in-envelope
+    products).  Bit patterns of `fft()` outputs, `fft_inv` of arbitrary complex input (its rounding is decided by
+    1e-16 noise) and out-of-envelope products are NOT verdict material: their raw is just the length; with
+    `C04_DIAG=1` (diagnostic run of `checks/C04.py: extra`, recorded in the evidence, never a verdict) the full
+    digests are printed instead. -/
+def rawOf {K} (P : Prec K) (diag inDom : Bool) (op : POp) (used : POut K) : String :=
+  match used with
+  | .unit | .panic _ | .invalid => showOut P used
+  | _ =>
+    if diag then showOut P used
+    else match op with
+      | .f _ _ | .fi _ _ _ _ | .inv _ _ | .ii _ _ _ => s!"len={outLen used}"
+      | _ => if inDom then showOut P used else s!"len={outLen used}"
 
 /-- The view of a result through the property's eyes.  For the calls whose VALUE the property fixes
-    (`inDom`: multiply, multiply_into, forward·pointwise·inverse inside the envelope) the value part of the
-    view is the exact value (`exp`): the theorems are about exact arithmetic and about history independence,
-    the binary64/binary32 instance executed here has the same rounding errors as the Rust code (that is what
-    the raw comparison checks), so a rounding failure inside the envelope must show up as
-    "implementation ≠ specification", not as "model ≠ specification".  The `fresh=` part is always computed
-    by actually running the model on a brand-new object. -/
+    (`inDom`) the value part of the view is the exact value (`exp`): the theorems are about exact arithmetic and
+    about history independence; the binary64/binary32 instance executed here has the same rounding errors as the
+    Rust code (that is what the raw comparison checks), so a rounding failure inside the envelope must show up as
+    "implementation ≠ specification", not as "model ≠ specification" (the exact instance `arithC` over ℂ is not
+    executable).  The `fresh=` / `tail=` parts are always computed by actually running the model. -/
 def viewOf {K} (P : Prec K) (exp : Option (List Int)) (inDom : Bool) (op : POp) (used fresh : POut K) : String :=
   let rawU := showOut P used
   let same := if rawU == showOut P fresh then "fresh=same" else "fresh=diff"
@@ -220,28 +248,28 @@ def viewOf {K} (P : Prec K) (exp : Option (List Int)) (inDom : Bool) (op : POp) 
     let keep := out.length == res.length && out.drop xs.size == res.drop xs.size
     s!"{same} tail={if keep then "kept" else "changed"}"
   | .ii _ _ _, _ => same
-  | _, .ivec xs =>
-    match exp with
-    | some e =>
-      if inDom then s!"{showIVec e} {same} oracle=exact"
-      else s!"{rawU} {same} {if e == xs then "oracle=exact" else "oracle=wrong"}"
-    | none => s!"{rawU} {same} oracle=none"
+  | _, .ivec _ =>
+    match exp, inDom with
+    | some e, true => s!"{showIVec e} {same} oracle=exact"
+    | _, _ => same
   | _, _ => rawU
 
-def runCase {K} (P : Prec K) (ops : List POp) : String :=
+def runCase {K} (P : Prec K) (diag : Bool) (ops : List POp) : String :=
   match ops.reverse with
   | [] => "M INVALID | V INVALID | S any"
   | last :: histRev =>
     let s := histRev.reverse.foldl (fun s op => (pcall P s op).1) (new P.A)
     let used := (pcall P s last).2
     let fresh := (pcall P (new P.A) last).2
-    let exp := expected last
+    let inDom := valueInDomain P last
+    let exp := if inDom then expected last else none
     let spec := match used with
       | .invalid => none
-      | _ => specOf P exp last
-    answer3 (showOut P used) (viewOf P exp spec.isSome last used fresh) (spec.getD "any")
+      | .panic _ => (match last with | .u _ => specOf exp inDom last | _ => none)
+      | _ => specOf exp inDom last
+    answer3 (rawOf P diag inDom last used) (viewOf P exp inDom last used fresh) (spec.getD "any")
 
-def handle (line : String) : String :=
+def handle (diag : Bool) (line : String) : String :=
   match splitOps line with
   | [] => badLine line
   | hdr :: ops =>
@@ -249,8 +277,10 @@ def handle (line : String) : String :=
     | none => badLine line
     | some ops =>
       match tokens hdr with
-      | ["fft", "f64"] => runCase prec64 ops
-      | ["fft", "f32"] => runCase prec32 ops
+      | ["fft", "f64"] => runCase prec64 diag ops
+      | ["fft", "f32"] => runCase prec32 diag ops
       | _ => badLine line
 
-def main : IO Unit := driverMain handle
+def main : IO Unit := do
+  let d ← IO.getEnv "C04_DIAG"
+  driverMain (handle d.isSome)
